@@ -81,7 +81,8 @@ class _OpxRange(ExcelWrapper.RangeData):
 
             # if this range corresponds to the top left of a CSE Array formula
             if (args[0] == args[1] == '1') and all(
-                    isinstance(c.value, str) and c.value.startswith(front)
+                    isinstance(c.value, str) and
+                    c.value[:-1].rsplit(',', 4)[0] == front
                     for c in flatten(cells)):
                 # apply formula to the range
                 formula = '={%s}' % front[len(ARRAY_FORMULA_NAME) + 1:]
